@@ -161,6 +161,20 @@ var lunarCivilLunar = ev.Register(&ev.P[lunarCase]{
 	Name: "lunar_civil_lunar",
 	Rule: "lunar triples valid by construction (year, one of the year's own months, day within its count) with generated clock times; oracle: NewLunar(...).GetSolar().GetLunar() reports the same year/month/day/time, the civil date is valid and its day number equals the month's first day number + day - 1; non-trivial: leap month, day 1/29/30, month 1 or 12, early years",
 	Check: func(c lunarCase) error {
+		// the constructor is used for another year's month of the same number, then refused for this year (a month
+		// that does not exist), then asked for the case: refused calls leave nothing behind
+		func() {
+			defer func() { _ = recover() }()
+			_ = calendar.NewLunar(c.Y-1-c.D%3, abs(c.M), 1, 0, 0, 0)
+		}()
+		func() {
+			defer func() { _ = recover() }()
+			_ = calendar.NewLunar(c.Y, []int{13, -13, 0, -abs(c.M) - 12}[c.D%4], 1, 0, 0, 0)
+		}()
+		func() {
+			defer func() { _ = recover() }()
+			_ = calendar.NewLunar(c.Y, c.M, 31+c.D%2, 0, 0, 0)
+		}()
 		l := calendar.NewLunar(c.Y, c.M, c.D, c.H, c.Mi, c.S)
 		s := l.GetSolar()
 		g := gen.FromSolar(s)
@@ -356,6 +370,13 @@ func d1Flat(d map[string]string) map[string]string {
 		}
 	}
 	return out
+}
+
+func abs(x int) int {
+	if x < 0 {
+		return -x
+	}
+	return x
 }
 
 func TestC01(t *testing.T) {
